@@ -53,3 +53,4 @@ func vSecret(s string)
 func vSharedWriteText(i int) string
 func vReplayDraws(from int)
 func vDrawLimit(n int, msg string)
+func vCoinScript(mode, free int)
